@@ -76,10 +76,11 @@ FILE_KINDS = {
     'generic_file': ('.txt', 'file'), 'source_file': ('.c', 'source'), 'header_file': ('.h', 'header'),
     'module_def_file': ('.def', 'mdef'), 'auto_file': (None, None), 'directory': ('', 'dir'),
     'header_directory': ('', 'hdrdir'), 'man_page': ('.1', 'man'), 'precompiled_header': ('.gch', 'pch'),
-    'object_file': ('.o', 'object'), 'executable': ('', 'exe'), 'shared_library': ('.so', 'lib'),
-    'static_library': ('.a', 'lib'), 'library': ('.a', 'lib'),
+    'object_file': ('.o', 'object'), 'executable': ('', 'exe'), 'shared_library': ('.so', 'libsh'),
+    'static_library': ('.a', 'libst'), 'library': ('.a', 'libst'),
 }
 KIND_IDS = list(FILE_KINDS)
+LIBTAGS = ('libsh', 'libst', 'libany')
 AUTO_EXT = [('.c', 'source'), ('.h', 'header'), ('.dat', 'file'), ('/', 'dir'), ('.cpp', 'source')]
 
 
@@ -153,16 +154,16 @@ class Gen:
             ext, tag = self.rng.choice(AUTO_EXT)
         if r < 0.12:
             # build-directory path: never registered
-            name = self.names.new('b', ext if ext != '/' else '', plain=True)
+            name = self.names.new('libb' if tag in LIBTAGS else 'b', ext if ext != '/' else '', plain=True)
             self.objs.append((lab, tag, 'build'))
             return {'op': 'file', 'kind': kind, 'arg': ('bpath', name), 'dist': dist, 'label': lab}
         if r < 0.22 and kind not in ('auto_file', 'man_page'):
-            o = self.pick_obj((tag,))
+            o = self.pick_obj(LIBTAGS if kind == 'library' else (tag,))
             if o:
                 # an existing object of the same type: returned as is
                 self.objs.append((lab, tag, o[2]))
                 return {'op': 'file', 'kind': kind, 'arg': ('obj', o[0]), 'dist': dist, 'label': lab}
-        name = self.names.new('lib' + kind[0] if tag == 'lib' else kind[0], ext)
+        name = self.names.new('lib' + kind[0] if tag in LIBTAGS else kind[0], ext)
         if kind in ('directory', 'header_directory') or ext == '/':
             p = self.touch(d, name.rstrip('/') + '/')
             self.touch(d, name.rstrip('/') + '/inner.h')
@@ -297,8 +298,11 @@ class Gen:
             elif r < 0.4:
                 o = self.pick_obj(('found',))
                 if o:
-                    out.append(('objs', o[0]))
+                    if ('objs', o[0]) not in out:
+                        out.append(('objs', o[0]))
                     continue
+            if o and ('obj', o[0]) in out:
+                o = None
             if o:
                 out.append(('obj', o[0]))
             else:
@@ -336,8 +340,8 @@ class Gen:
         kind = self.rng.choice(['executable', 'executable', 'static_library', 'shared_library', 'library'])
         libs = []
         for _ in range(self.rng.randint(0, 2)):
-            o = self.pick_obj(('lib',))
-            if o and self.rng.random() < 0.7:
+            o = self.pick_obj(LIBTAGS)
+            if o and self.rng.random() < 0.7 and ('obj', o[0]) not in libs:
                 libs.append(('obj', o[0]))
             else:
                 libs.append(self.new_src(d, 'libq', '.a', ref=True)[0])
@@ -355,14 +359,15 @@ class Gen:
             pch = None
         st = {'op': 'link', 'kind': kind, 'files': files, 'includes': self.inc_args(d) if compiles else [], 'libs': libs,
               'pch': pch, 'deps': self.dep_args(d), 'label': lab}
-        self.objs.append((lab, 'exe' if kind == 'executable' else 'lib', 'build'))
+        self.objs.append((lab, {'executable': 'exe', 'shared_library': 'libsh', 'static_library': 'libst',
+                                'library': 'libany'}[kind], 'build'))
         return st
 
     def st_copy(self, d):
         lab = self.lab()
         o = self.pick_obj(('file', 'header', 'source'), roots=('src',)) if self.rng.random() < 0.3 else None
         a = ('obj', o[0]) if o else self.new_src(d, 'cp', '.dat', ref=True)[0]
-        st = {'op': 'copy', 'arg': a, 'rename': self.rng.random() < 0.3, 'deps': self.dep_args(d), 'label': lab,
+        st = {'op': 'copy', 'arg': a, 'rename': bool(o) or self.rng.random() < 0.3, 'deps': self.dep_args(d), 'label': lab,
               'many': self.rng.random() < 0.2 and not o}
         self.objs.append((lab, 'file', 'build'))
         return st
@@ -403,7 +408,7 @@ class Gen:
                 'deps': deps, 'label': lab, 'out': self.names.new('gen', '.c', plain=True)}
 
     def st_misc(self, d):
-        o = self.pick_obj(('exe', 'lib', 'header', 'hdrdir', 'dir', 'man', 'file'))
+        o = self.pick_obj(('exe', 'libsh', 'libst', 'header', 'hdrdir', 'dir', 'man', 'file'))
         if not o:
             return None
         op = self.rng.choice(['install', 'default', 'alias', 'test'])
